@@ -337,6 +337,30 @@ class Machine:
             r = Tagged(r, tg)
         return ('tuple', [r, 0]) if op.endswith('WithOverflow') else r
 
+    def adt_equal(self, a, b, depth=0):
+        """structural equality of two enum values (what #[derive(PartialEq)] and the std impls for Option / Result compute);
+        None when a payload is not comparable here"""
+        if depth > 6:
+            return None
+        if a.get('__discr__') != b.get('__discr__'):
+            return False
+        i = 0
+        while str(i) in a or str(i) in b:
+            x, y = self.deref_value(a.get(str(i))), self.deref_value(b.get(str(i)))
+            if isinstance(x, dict) and isinstance(y, dict) and '__discr__' in x and '__discr__' in y:
+                r = self.adt_equal(x, y, depth + 1)
+                if r is None or r is False:
+                    return r
+            elif isinstance(x, (int, float, str)) and isinstance(y, (int, float, str)) and not isinstance(x, Rep) and not isinstance(y, Rep):
+                if x != y:
+                    return False
+            elif x == ('tuple', []) and y == ('tuple', []):
+                pass
+            else:
+                return None
+            i += 1
+        return True
+
     def check_const_compare(self, a, b):
         """a representative compared with a literal: only the bounds 0 (<= every index) and usize::MAX (> every index) have
         an answer that holds for every value of the order type"""
@@ -409,6 +433,13 @@ class Machine:
             r = self.model(self, path, args, t)
             if r is not NotImplemented:
                 return r
+        if c and path in self.b.facts.bodies and self.b.facts.bodies[path].kind == 'closure' and len(args) == 2:
+            # a closure called where it was made (`let f = || ..; f()`): the call is resolved to the closure body and its
+            # arguments arrive as one tuple (rust-call ABI)
+            tup = self.deref_value(args[1])
+            callee = self.b.facts.bodies[path]
+            if isinstance(tup, tuple) and tup and tup[0] == 'tuple' and callee.argc == 1 + len(tup[1]):
+                return self.invoke(callee, [args[0]] + list(tup[1]))
         if self.enter is not None and c and path in self.b.facts.bodies and self.enter(path):
             callee = self.b.facts.bodies[path]
             if callee.argc == len(args):
@@ -434,6 +465,10 @@ class Machine:
                 return int(CMP[m.group(1)](a, b))
             if isinstance(a, str) and isinstance(b, str) and m.group(1) in ('eq', 'ne'):
                 return int((a == b) == (m.group(1) == 'eq'))          # two literal texts
+            if isinstance(a, dict) and isinstance(b, dict) and '__discr__' in a and '__discr__' in b and m.group(1) in ('eq', 'ne'):
+                same = self.adt_equal(a, b)                            # derived equality of enum / Option / Result values
+                if same is not None:
+                    return int(same == (m.group(1) == 'eq'))
             raise Unknown('%s of %r, %r' % (m.group(1), a, b))
         m = re.search(r'ops::(?:arith::)?(Add|Sub|Mul|Div|Rem)(?:<[^>]*>)?>::(add|sub|mul|div|rem)$', path)
         if m and len(args) == 2:
@@ -464,6 +499,13 @@ class Machine:
                     raise Unknown('mem::take of %r' % (old,))
             self.write(args[0][1], args[0][2], new)
             return old
+        if re.search(r'ops::(function::)?Fn(Mut|Once)?::call(_mut|_once)?$', path) and len(args) == 2:
+            tup = self.deref_value(args[1])
+            params = list(tup[1]) if isinstance(tup, tuple) and tup and tup[0] == 'tuple' else None
+            if params is not None:
+                r = self.apply_fn(args[0], params)              # `f(a, b)` with f a closure value or fn item
+                if r is not None:
+                    return r
         # `x?`: Try::branch / FromResidual::from_residual on a known Option / Result
         if re.search(r'ops::(try_trait::)?Try>::branch$', path) and args:
             v = self.deref_value(args[0])
@@ -485,6 +527,38 @@ class Machine:
                 if e is None:
                     raise Unknown('ok_or_else with an unknown function value')
                 return self.make_adt('core::result::Result::Err', [e], [])
+        mm = re.search(r'Option::<.*>::(or_else|or|and_then|unwrap_or_else|filter|xor|and)$', path)
+        if mm and len(args) == 2:
+            v = self.deref_value(args[0])
+            if isinstance(v, dict) and '__discr__' in v:
+                how = mm.group(1)
+                some_ = v['__discr__'] == 1
+                if how == 'or':
+                    return v if some_ else args[1]
+                if how == 'and':
+                    return args[1] if some_ else v
+                if how in ('or_else', 'unwrap_or_else'):
+                    if some_:
+                        return v if how == 'or_else' else v['0']
+                    r = self.apply_fn(args[1], [])
+                    if r is None:
+                        raise Unknown('%s with an unknown function value' % how)
+                    return r
+                if how == 'and_then':
+                    if not some_:
+                        return v
+                    r = self.apply_fn(args[1], [v['0']])
+                    if r is None:
+                        raise Unknown('and_then with an unknown function value')
+                    return r
+                if how == 'filter':
+                    if not some_:
+                        return v
+                    r = self.apply_fn(args[1], [v['0']])
+                    r = self.deref_value(r) if r is not None else None
+                    if r in (0, 1):
+                        return v if r else self.make_adt('core::option::Option::None', [], [])
+                    raise Unknown('filter with an unknown predicate')
         if re.search(r'Option::<.*>::take$', path) and args and is_ptr(args[0]):
             old = self.read(args[0][1], args[0][2])
             self.write(args[0][1], args[0][2], self.make_adt('core::option::Option::None', [], []))
